@@ -28,7 +28,9 @@ RULE = ("a ThreadedWriter around a recording destination (with a failure mask ov
         "stopService's result completes; nothing is passed twice; per-producer order and real-time order of non-overlapping offers "
         "are kept; all writes of a cycle happen on one thread that is none of the callers; a destination exception loses only that "
         "message; in part of the runs the wrapped destination itself offers a message from inside its call (never handled re-entrantly, "
-        "queued behind everything offered before); with a stalled destination (logical clock) further offers never wait; two fifths of the messages are dict subclasses whose == answers "
+        "queued behind everything offered before); with a stalled destination (logical clock) further offers never wait; a redundant stopService() "
+        "(not running) raises ValueError and leaves nothing behind for the next cycle; part 'signals' (forked child, OS scheduling): an interval "
+        "timer's handler offers messages on the thread that is itself offering 30 000 messages - no offer blocks, both sequences are written in order; two fifths of the messages are dict subclasses whose == answers "
         "True to anything or only works against mappings, half of the destination failures carry unhashable arguments. non-trivial = schedule whose preemption fired in logwriter.py or with stop concurrent to offers; distinct by "
         "interleaving hash")
 ASSUMPTIONS = ["twisted is not installed: Service and deferToThreadPool are the stand-ins of vf/twisted_stub.py, which reproduce only the two "
@@ -40,8 +42,9 @@ CASE_TIMEOUT = 900
 def plan(tier, seed):
     n = 32 if tier == "quick" else 250
     specs = [{"seed": seed, "i": i, "tier": tier} for i in range(n)]
-    specs += [{"seed": seed, "i": i, "tier": tier, "backlog": True} for i in range(2 if tier == "quick" else 8)]
+    specs += [{"seed": seed, "i": i, "tier": tier, "backlog": True} for i in range(4 if tier == "quick" else 12)]
     specs += [{"seed": seed, "i": i, "tier": tier, "slow": True} for i in range(4 if tier == "quick" else 24)]
+    specs += [{"seed": seed, "i": i, "tier": tier, "signals": True} for i in range(4 if tier == "quick" else 12)]
     return specs
 
 
@@ -76,7 +79,7 @@ def make_message(p, s, cyc):
     return m
 
 
-def run_once(plan_, nprod, nmsg, cycles, concurrent_stop, failmask, second_writer=False, slow=False, nested=False):
+def run_once(plan_, nprod, nmsg, cycles, concurrent_stop, failmask, second_writer=False, slow=False, nested=False, stray=0):
     tape = Tape()
     calls = [0]
     release = [not slow]
@@ -127,9 +130,23 @@ def run_once(plan_, nprod, nmsg, cycles, concurrent_stop, failmask, second_write
     idents = {}
     problems = []
 
+    def stray_stop(when):
+        # a redundant stopService() (never started, or stopped already) raises ValueError and must leave nothing behind
+        try:
+            with warnings.catch_warnings():
+                warnings.simplefilter("ignore")
+                writer.stopService()
+            problems.append("stopService() on a writer that is not running (%s) did not raise" % when)
+        except ValueError:
+            tape.add("stray_stop", when=when)
+        except BaseException as e:
+            problems.append("stopService() on a writer that is not running (%s) raised %r" % (when, e))
+
     def controller():
         idents["S"] = _thread.get_ident()
         for cyc in range(cycles):
+            if stray and (cyc + stray) % 2 == 0:
+                stray_stop("before cycle %d" % cyc)
             with warnings.catch_warnings():
                 warnings.simplefilter("ignore")
                 tape.add("start_call", cyc=cyc)
@@ -275,8 +292,97 @@ def run_backlog(spec, res):
         res["violations"].append({"msg": problems[0], "mech": None, "detail": {"part": "backlog", "messages": nmsg, "problems": problems[:4]}})
 
 
+def run_signals(spec, res):
+    """A signal handler that logs: while the main thread offers messages in a loop, an interval timer's handler offers further
+    ones on the same thread, possibly in the middle of an offer. Run in a forked child with OS scheduling; offering never blocks."""
+    import json
+    import os
+    import signal
+    import time
+    n = 30000
+    r, w = os.pipe()
+    pid = os.fork()
+    if pid == 0:
+        code = 0
+        try:
+            os.close(r)
+            got = []
+            with warnings.catch_warnings():
+                warnings.simplefilter("ignore")
+                writer = logwriter.ThreadedWriter(got.append, twisted_stub.Reactor())
+                writer.startService()
+            progress = [0]
+            extra = [0]
+
+            def handler(sig, frame):
+                if extra[0] < 3000:
+                    k = extra[0]
+                    extra[0] += 1
+                    writer({"p": "sig", "seq": k})
+
+            def watchdog():
+                last = -1
+                while True:
+                    time.sleep(30)
+                    if progress[0] == last:
+                        os._exit(17)  # no offer returned for 30 s: the offering thread is blocked for good
+                    last = progress[0]
+            sched._real_Thread(target=watchdog, daemon=True).start()
+            signal.signal(signal.SIGALRM, handler)
+            signal.setitimer(signal.ITIMER_REAL, 0.0003, 0.0003)
+            for s_ in range(n):
+                writer({"p": "main", "seq": s_})
+                progress[0] += 1
+            signal.setitimer(signal.ITIMER_REAL, 0, 0)
+            with warnings.catch_warnings():
+                warnings.simplefilter("ignore")
+                writer.stopService().wait()
+            progress[0] += 1
+            main_seq = [m["seq"] for m in got if m["p"] == "main"]
+            sig_seq = [m["seq"] for m in got if m["p"] == "sig"]
+            os.write(w, json.dumps({"main_ok": main_seq == list(range(n)), "sig_ok": sorted(sig_seq) == list(range(extra[0])),  # (handler invocations may nest: exactly once, any order) "signals": extra[0],
+                                    "written": len(got)}).encode())
+        except BaseException as e:
+            try:
+                os.write(w, json.dumps({"error": repr(e)}).encode())
+            except BaseException:
+                pass
+            code = 3
+        finally:
+            os._exit(code)
+    os.close(w)
+    data = b""
+    while True:
+        b = os.read(r, 65536)
+        if not b:
+            break
+        data += b
+    os.close(r)
+    _, status = os.waitpid(pid, 0)
+    problems = []
+    if os.WIFEXITED(status) and os.WEXITSTATUS(status) == 17:
+        problems.append("offering messages from a signal handler while the same thread is offering: no offer returned for 30 s (the thread blocks on itself)")
+    elif not data:
+        res["inconclusive"] = "signal child ended with status %r and no report" % (status,)
+    else:
+        rep = json.loads(data.decode())
+        if rep.get("error"):
+            problems.append("signal scenario raised %s" % rep["error"])
+        elif not rep["main_ok"] or not rep["sig_ok"]:
+            problems.append("messages offered by the main thread / by its signal handler were not written exactly once (main thread's: in order): %r" % (rep,))
+        res["counters"]["offers_from_signal_handlers"] = res["counters"].get("offers_from_signal_handlers", 0) + rep.get("signals", 0)
+    res["evals"] += 1
+    res["counters"]["signal_runs"] = res["counters"].get("signal_runs", 0) + 1
+    res["nontrivial"].append(h(["signals", spec["i"]]))
+    if problems:
+        res["violations"].append({"msg": problems[0], "mech": None, "detail": {"part": "signals", "problems": problems}})
+
+
 def run_case(spec):
     res = {"evals": 0, "nontrivial": [], "counters": {}, "violations": [], "sample": None, "sets": {"interleavings": [], "preemption_lines": []}}
+    if spec.get("signals"):
+        run_signals(spec, res)
+        return res
     rng = random.Random("%s:C19:%d" % (spec["seed"], spec["i"]))
     sched.instrument([logwriter])
     if spec.get("backlog"):
@@ -318,11 +424,12 @@ def run_case(spec):
     failmask = set(i for i in range(total) if rng.random() < rng.choice([0.0, 0.3, 1.0]))
     second_writer = rng.random() < 0.25
     nested = rng.random() < 0.3
+    stray = rng.choice([0, 0, 1, 2])
     names = ["S"] + ["P%d" % p for p in range(nprod)] + ["dyn%d" % (k + 1) for k in range((4 if second_writer else 2) * cycles)]
     c = res["counters"]
 
     def execute(plan_, label):
-        st, tape, idents, problems = run_once(plan_, nprod, nmsg, cycles, concurrent_stop, failmask, second_writer, nested=nested)
+        st, tape, idents, problems = run_once(plan_, nprod, nmsg, cycles, concurrent_stop, failmask, second_writer, nested=nested, stray=stray)
         if nested:
             c["schedules_with_a_logging_destination"] = c.get("schedules_with_a_logging_destination", 0) + 1
         res["evals"] += 1
